@@ -56,6 +56,12 @@ def generate(rng, tier):
             nexp = r.choice([0.0, 1.0, 2.0, 3.0, 0.5, -1.0, r.uniform(-3, 3)])
             pw = P.add('GPow', a, P.f(nexp))
             preds.append(('pow_mag', [a, ['#', fb.bits(nexp)], pw]))
+        if r.chance(0.25):
+            # whole exponents far outside the i32 range on magnitudes next to 1 (result stays in the domain)
+            nbig = r.choice([3e9, -4e9, 2147483648.0, -2147483649.0, 1e10, 4294967296.0])
+            mnear = 1.0 + r.choice([1e-9, -1e-9, 2e-10, -3e-10])
+            gb = P.add('GNewAngle', P.f(mnear), P.add('GAngle', a))
+            preds.append(('pow_mag', [gb, ['#', fb.bits(nbig)], P.add('GPow', gb, P.f(nbig))]))
         # associativity
         if r.chance(0.4):
             c = canon_geonum(P, r)
